@@ -303,7 +303,7 @@ def obligations(tier):
                  ("xfer3", tuples(SHAPES_Q, 3), dict(steps=0, slots=1, maxcall=80, lmax=2, stride=17)),
                  ("xfer2slots", four, dict(steps=0, slots=2, maxcall=60, lmax=2, stride=17)),
                  ("both", tuples(SHAPES_Q, 2), dict(steps=3, slots=1, maxcall=60, lmax=2, stride=1))]
-        pipes = [(tuples(SHAPES_T, 2), 340, 1), (tuples(SHAPES_Q, 3), 200, 1)]
+        pipes = [(tuples(SHAPES_T, 2), 120, 1), (tuples(SHAPES_Q, 3), 100, 1)]
     for fam, tups, kw in plans:
         for t in tups:
             covers = []
